@@ -993,3 +993,173 @@ def _future_poll(eng, st, args, dty, callee, m):
             return None
         return r
     raise SymError(f"poll of an unmodelled future {fut!r}")
+
+
+# ------------------------------------------------------------------------------------- more Option / Result / numeric helpers
+@summary(r"^std::option::Option::<.*>::(or|xor)$", "Option::or / xor")
+def _opt_or(eng, st, args, dty, callee, m):
+    a, b = args
+    if m.group(1) == "or":
+        return merge(is_variant(a, 1), a, b)
+    raise SymError("Option::xor")
+
+
+@summary(r"^std::option::Option::<.*>::or_else::<.*>$", "Option::or_else (real closure)")
+def _opt_or_else(eng, st, args, dty, callee, m):
+    a, f = args
+    s2, r = eng.call_closure(st, f, [])
+    _adopt(st, s2)
+    return merge(is_variant(a, 1), a, r)
+
+
+@summary(r"^std::option::Option::<.*>::take$", "Option::take")
+def _opt_take(eng, st, args, dty, callee, m):
+    old = eng.load(st, args[0])
+    eng.store(st, args[0], VEnum(OPTION, bv(0, 8), {0: ()}))
+    return old
+
+
+@summary(r"^std::option::Option::<.*>::(replace|insert)$", "Option::replace / insert")
+def _opt_replace(eng, st, args, dty, callee, m):
+    old = eng.load(st, args[0])
+    eng.store(st, args[0], some(args[1]))
+    if m.group(1) == "insert":
+        return VRef(args[0].root, args[0].path + (("v", 1), 0), True)
+    return old
+
+
+@summary(r"^std::result::Result::<.*>::and_then::<.*>$", "Result::and_then (real closure)")
+def _res_and_then(eng, st, args, dty, callee, m):
+    o, f = args
+    if 0 not in o.pay:
+        return o
+    s2, r = eng.call_closure(st, f, [o.pay[0][0]])
+    _adopt(st, s2)
+    errv = VEnum(RESULT, bv(1, 8), {1: o.pay.get(1, (VOpaque("error"),))})
+    return merge(is_variant(o, 0), r, errv)
+
+
+@summary(r"^std::result::Result::<.*>::(unwrap_or_else|map_or_else)::<.*>$", "Result::unwrap_or_else (real closure)")
+def _res_unwrap_or_else(eng, st, args, dty, callee, m):
+    if m.group(1) != "unwrap_or_else":
+        raise SymError("Result::map_or_else")
+    o, f = args
+    errp = o.pay.get(1, (VOpaque("error"),))[0]
+    s2, r = eng.call_closure(st, f, [errp])
+    _adopt(st, s2)
+    if 0 not in o.pay:
+        return r
+    return merge(is_variant(o, 0), o.pay[0][0], r)
+
+
+@summary(r"^std::result::Result::<.*>::(is_ok_and|is_err_and)::<.*>$", "Result::is_ok_and (real closure)")
+def _res_is_ok_and(eng, st, args, dty, callee, m):
+    o, f = args
+    vi = 0 if m.group(1) == "is_ok_and" else 1
+    if vi not in o.pay:
+        return z3.BoolVal(False)
+    s2, r = eng.call_closure(st, f, [o.pay[vi][0]])
+    _adopt(st, s2)
+    return simp(z3.And(is_variant(o, vi), r))
+
+
+@summary(r"^std::result::Result::<.*>::err$", "Result::err")
+def _res_err(eng, st, args, dty, callee, m):
+    o = args[0]
+    if 1 not in o.pay:
+        return none()
+    return option(is_variant(o, 1), o.pay[1][0])
+
+
+@summary(r"^std::result::Result::<.*>::map_or::<.*>$", "Result::map_or (real closure)")
+def _res_map_or(eng, st, args, dty, callee, m):
+    o, d, f = args
+    if 0 not in o.pay:
+        return d
+    s2, r = eng.call_closure(st, f, [o.pay[0][0]])
+    _adopt(st, s2)
+    return merge(is_variant(o, 0), r, d)
+
+
+@summary(r"^<(u8|u16|u32|u64|usize) as (std::cmp::)?Ord>::clamp$|^core::cmp::Ord::clamp::<(u8|u16|u32|u64|usize)>$", "Ord::clamp on unsigned ints")
+def _uclamp(eng, st, args, dty, callee, m):
+    x, lo, hi = args
+    eng.oblige(st, "panic:clamp min > max", z3.UGT(lo, hi))
+    return z3.If(z3.ULT(x, lo), lo, z3.If(z3.UGT(x, hi), hi, x))
+
+
+@summary(r"^core::f64::<impl f64>::(to_bits|signum|powi|mul_add|recip)$|^std::f64::<impl f64>::(powi|mul_add)$", "f64 helpers (powi only for small constant exponents)")
+def _f64_more(eng, st, args, dty, callee, m):
+    k = m.group(1) or m.group(2)
+    x = args[0]
+    if k == "to_bits":
+        b = eng.fresh_bv("f64bits", 64)
+        eng.assume(z3.fpBVToFP(b, F64) == x)
+        return b
+    if k == "recip":
+        return z3.fpDiv(RNE, z3.FPVal(1.0, F64), x)
+    if k == "mul_add":
+        return z3.fpFMA(RNE, x, args[1], args[2])
+    if k == "signum":
+        return z3.If(z3.fpIsNaN(x), x, z3.If(z3.fpIsNegative(x), z3.FPVal(-1.0, F64), z3.FPVal(1.0, F64)))
+    if k == "powi":
+        n = as_int(args[1])
+        if n is None or n < 0 or n > 8:
+            raise SymError("powi with a non-small exponent")
+        r = z3.FPVal(1.0, F64)
+        for _ in range(n):
+            r = z3.fpMul(RNE, r, x)
+        return r
+    raise SymError("f64 helper " + k)
+
+
+@summary(r"^core::f64::<impl f64>::from_bits$", "f64::from_bits")
+def _f64_from_bits(eng, st, args, dty, callee, m):
+    return z3.fpBVToFP(args[0], F64)
+
+
+@summary(r"^(std::time::)?Duration::(as_nanos|from_micros|from_nanos|checked_sub|saturating_sub|checked_add|is_zero|as_secs_f32|from_secs_f64|mul_f64)$", "more Duration helpers")
+def _dur_more(eng, st, args, dty, callee, m):
+    k = m.group(2)
+    if k == "as_nanos":
+        d = deref(eng, st, args[0])
+        return z3.ZeroExt(64, d.f[0]) * bv(NANOS, 128) + z3.ZeroExt(96, d.f[1])
+    if k == "from_micros":
+        us = args[0]
+        return mk_time(simp(z3.UDiv(us, bv(1_000_000, 64))), simp(z3.Extract(31, 0, z3.URem(us, bv(1_000_000, 64))) * bv(1000, 32)), "Duration")
+    if k == "from_nanos":
+        ns = args[0]
+        return mk_time(simp(z3.UDiv(ns, bv(NANOS, 64))), simp(z3.Extract(31, 0, z3.URem(ns, bv(NANOS, 64)))), "Duration")
+    if k == "is_zero":
+        d = deref(eng, st, args[0])
+        return simp(z3.And(d.f[0] == 0, d.f[1] == 0))
+    a = deref(eng, st, args[0])
+    b = deref(eng, st, args[1]) if len(args) > 1 else None
+    if k == "checked_sub":
+        return option(time_le(b, a), time_sub(a, b))
+    if k == "saturating_sub":
+        return merge(time_le(b, a), time_sub(a, b), ZERO_DUR)
+    if k == "checked_add":
+        return some(time_add(a, b, "Duration"))
+    raise SymError("Duration helper " + k)
+
+
+@summary(r"^<(std::time::)?(Instant|SystemTime) as Sub<(std::time::)?Duration>>::sub$|^(std::time::)?(Instant|SystemTime)::(checked_sub|checked_add)$", "Instant -/+ Duration")
+def _instant_sub(eng, st, args, dty, callee, m):
+    a = deref(eng, st, args[0])
+    d = deref(eng, st, args[1])
+    ty = a.ty or "Instant"
+    if callee.endswith("checked_add"):
+        return some(time_add(a, d, ty))
+    sub = time_sub(a, d, ty)
+    if callee.endswith("checked_sub"):
+        return option(time_le(d, a), sub)
+    eng.oblige(st, "panic:Instant - Duration underflow", time_lt(a, d))
+    return sub
+
+
+@summary(r"^<(std::time::)?Instant as Sub>::sub$|^<(std::time::)?Instant as Sub<(std::time::)?Instant>>::sub$", "Instant - Instant (saturating, as duration_since)")
+def _instant_minus_instant(eng, st, args, dty, callee, m):
+    a = deref(eng, st, args[0])
+    b = deref(eng, st, args[1])
+    return merge(time_le(b, a), time_sub(a, b), ZERO_DUR)
